@@ -3,6 +3,7 @@ package netty
 import (
 	"context"
 	"errors"
+	"fmt"
 
 	"github.com/go-netty/go-netty/internal/vrt"
 )
@@ -14,7 +15,7 @@ var zzErrUserClose = errors.New("zz: closed by user")
 // payload must have been handed to it and flushed, and no batch write may be in progress.
 // For bounded-wait channels (until == 0) this is required only if the closer slept less than the documented
 // grace period (10 x 100 ms).
-func ZZ_C06_Close(q, until, nw, ww, wwOther, entries int) {
+func ZZ_C06_Close(q, until, nw, ww, wwOther, entries, closeKind int) {
 	tr := newZZTransport()
 	tr.yield = true
 	pl := NewPipeline()
@@ -25,9 +26,9 @@ func ZZ_C06_Close(q, until, nw, ww, wwOther, entries int) {
 		w := w
 		entry := entries
 		for i := 0; i < w; i++ {
-			entry /= 5
+			entry /= 8
 		}
-		entry %= 5
+		entry %= 8
 		vrt.Go("w"+string(rune('0'+w)), func() {
 			mine, base := ww, 0
 			if w > 0 {
@@ -56,7 +57,7 @@ func ZZ_C06_Close(q, until, nw, ww, wwOther, entries int) {
 	tr.onClose = func() {
 		grace := until != 0 || vrt.Slept() < 1000000000
 		if grace {
-			vrt.Assert(!tr.inWrite, "c06-transport-not-closed-during-a-batch-write")
+			vrt.Assert(!tr.inWrite && !tr.inFlush, "c06-transport-not-closed-during-a-batch-write")
 			g.checkLog(tr.log, true) // c02-accepted-payload-was-sent: every accepted payload is in the log
 			vrt.Assert(tr.unflushed == 0, "c06-flushed-before-close")
 			vrt.Reach("c06-close-within-grace")
@@ -64,7 +65,17 @@ func ZZ_C06_Close(q, until, nw, ww, wwOther, entries int) {
 			vrt.Reach("c06-close-after-grace")
 		}
 	}
-	ch.Close(zzErrUserClose)
+	var closeErr error = zzErrUserClose
+	switch closeKind {
+	case 1:
+		closeErr = nil
+	case 2:
+		closeErr = &zzNetErr{timeout: true} // e.g. a read deadline forwarded by an exception handler
+	case 3:
+		closeErr = fmt.Errorf("wrapped: %w", &zzNetErr{timeout: false})
+	}
+	vrt.Facet("closekind", closeKind)
+	ch.Close(closeErr)
 	vrt.Assert(!ch.IsActive(), "c06-inactive-after-close")
 	dead := vrt.Quiesce()
 	vrt.Assert(!dead, "c06-no-thread-left-blocked")
